@@ -13,6 +13,7 @@ kind "real" end-to-end oracle, no model: random histories on trees of the bundle
             still have the content they had at hand-out.
 """
 import ast
+import contextlib
 import gc
 import os
 import re
@@ -22,7 +23,7 @@ from harness import core
 
 warnings.simplefilter("ignore")
 
-KIND = {"leaf": 0, "attr": 1, "pad": 2, "pile": 3, "cols": 4}
+KIND = {"leaf": 0, "attr": 1, "pad": 2, "pile": 3, "cols": 4, "switch": 5}
 VCH = "0123456789abcdefghijklmnopqrstuvwxyz"
 
 
@@ -54,6 +55,27 @@ def spy_classes():
     _spy["plain"] = type("Leaf", (urwid.Widget,), dict(base, render=render, rows=rows))
     _spy["ignf"] = type("LeafIgnoreFocus", (urwid.Widget,), dict(base, render=render, rows=rows, ignore_focus=True))
     _spy["nocache"] = type("LeafNoCache", (urwid.Widget,), dict(base, render=render, rows=rows, no_cache=["render"]))
+
+    # a container written against the documented widget API: shows only its first child when narrow
+    def sw_init(self, kids, fp, th):
+        urwid.Widget.__init__(self)
+        self.kids, self.fp, self.th = kids, fp, th
+
+    def sw_shown(self, size):
+        return self.kids if size[0] >= self.th else self.kids[:1]
+
+    def sw_render(self, size, focus=False):
+        return urwid.CanvasCombine([(k.render(size, focus and i == self.fp), i, i == self.fp)
+                                    for i, k in enumerate(sw_shown(self, size))])
+
+    def sw_rows(self, size, focus=False):
+        return sum(k.rows(size, focus and i == self.fp) for i, k in enumerate(sw_shown(self, size)))
+
+    def sw_set(self, kids, fp):
+        self.kids, self.fp = kids, fp
+        self._invalidate()
+    _spy["switch"] = type("Switch", (urwid.Widget,), {"_sizing": frozenset(["flow"]), "_selectable": False, "__init__": sw_init,
+                                                      "render": sw_render, "rows": sw_rows, "set": sw_set})
     return _spy
 
 
@@ -84,6 +106,8 @@ def build_bk(case):
             objs[n["id"]] = urwid.Padding(kids[0], left=n["l"], right=n["r"])
         elif k == "pile":
             objs[n["id"]] = urwid.Pile(kids, focus_item=fp)
+        elif k == "switch":
+            objs[n["id"]] = cls["switch"](kids, fp, n["l"])
         elif k == "cols":
             objs[n["id"]] = urwid.Columns([("given", wd, x) for wd, x in zip(n["widths"], kids)], dividechars=0, focus_column=fp)
         else:
@@ -102,6 +126,8 @@ def apply_config(n, w, objs, v):
     kids = [objs[i] for i in ch]
     if k in ("attr", "pad"):
         w.original_widget = kids[0]
+    elif k == "switch":
+        w.set(kids, fp)
     elif k == "pile":
         w.contents[:] = [(x, w.options()) for x in kids]
         w.focus_position = fp
@@ -129,8 +155,20 @@ def dump_cache(wid_of):
 
 
 def content_of(canv):
-    return [[[repr(a), repr(cs), bytes(t).decode("latin-1")] for a, cs, t in row] for row in canv.content()], \
-        (list(canv.cursor) if canv.cursor is not None else None)
+    """Displayed cells: per row the runs (attr, charset, bytes) with equal neighbours merged; plus the cursor."""
+    rows = []
+    for row in canv.content():
+        out = []
+        for a, cs, t in row:
+            t = bytes(t).decode("latin-1")
+            if not t:
+                continue
+            if out and out[-1][0] == repr(a) and out[-1][1] == repr(cs):
+                out[-1][2] += t
+            else:
+                out.append([repr(a), repr(cs), t])
+        rows.append(out)
+    return rows, (list(canv.cursor) if canv.cursor is not None else None)
 
 
 def run_bk(case):
@@ -198,6 +236,9 @@ def expect_bk(case):
                 parts.append(show(x, maxcol - n["l"] - n["r"], focus))
             elif n["k"] == "pile":
                 parts.append(show(x, maxcol, focus and i == fp))
+            elif n["k"] == "switch":
+                if i == 0 or maxcol >= n["l"]:
+                    parts.append(show(x, maxcol, focus and i == fp))
             else:
                 parts.append(show(x, n["widths"][i], focus and i == fp))
         rows = [p[0] for p in parts]
@@ -341,8 +382,17 @@ def new_leaf(a):
 KEYS = ["x", "left", "right", "up", "down", "backspace", "home", "end", "enter", " ", "delete", "page down", "page up", "tab", "1", "-"]
 
 
+def setprop(w, name, value):
+    """Assign through a public property WITH a setter only; a plain attribute is not a mutator (no-op)."""
+    p = getattr(type(w), name, None)
+    if not isinstance(p, property) or p.fset is None or name.startswith("_"):
+        return False
+    setattr(w, name, value)
+    return True
+
+
 def mutate_real(w, a, b, size):
-    """One public mutation of widget w chosen by the integers a, b.  Returns a short name."""
+    """One public mutation of widget w chosen by the integers a, b.  Returns a short name (None = nothing done)."""
     import urwid
     if isinstance(w, urwid.Edit):
         k = a % 6
@@ -396,12 +446,7 @@ def mutate_real(w, a, b, size):
         w.set_completion(b % 120)
         return "ProgressBar.set_completion"
     if isinstance(w, urwid.Divider):
-        k = a % 2
-        if k == 0:
-            w.top = b % 3
-            return "Divider.top"
-        w.bottom = b % 3
-        return "Divider.bottom"
+        return None       # top/bottom/div_char are plain attributes without a setter: assigning them is not a public mutator
     if isinstance(w, (urwid.Pile, urwid.Columns, urwid.GridFlow)):
         name = type(w).__name__
         n = len(w.contents)
@@ -424,18 +469,18 @@ def mutate_real(w, a, b, size):
             return name + ".contents.insert"
         if k == 5 and n:
             if isinstance(w, urwid.GridFlow):
-                w.cell_width = 3 + b % 6
-                return "GridFlow.cell_width"
+                return "GridFlow.cell_width" if setprop(w, "cell_width", 3 + b % 6) else None
             if isinstance(w, urwid.Columns):
-                w.dividechars = b % 3
-                return "Columns.dividechars"
+                return "Columns.dividechars" if setprop(w, "dividechars", b % 3) else None
             w.contents[b % n] = (w.contents[b % n][0], w.options(["pack", "weight"][b % 2], [None, 1 + b % 3][b % 2]))
             return "Pile.contents.options"
         if k == 6 and n:
             if isinstance(w, urwid.GridFlow):
-                [setattr(w, "h_sep", b % 3), setattr(w, "v_sep", b % 2), setattr(w, "align", ["left", "center", "right"][b % 3])][b % 3 and 0]
-                w.h_sep = b % 3
-                return "GridFlow.h_sep"
+                if b % 3 == 0:
+                    return "GridFlow.h_sep" if setprop(w, "h_sep", b % 4) else None
+                if b % 3 == 1:
+                    return "GridFlow.v_sep" if setprop(w, "v_sep", b % 2) else None
+                return "GridFlow.align" if setprop(w, "align", ["left", "center", "right"][b % 3]) else None
             if isinstance(w, urwid.Columns):
                 i = b % n
                 ch = w.contents[i][0]
@@ -455,9 +500,7 @@ def mutate_real(w, a, b, size):
             w.set_title(["", "T2", "a longer title"][b % 3])
             return "LineBox.set_title"
         if k == 1:
-            w.original_widget = new_leaf(b)
-            return "LineBox.original_widget"
-        w.title_align = ["left", "center", "right"][b % 3] if hasattr(type(w), "title_align") else None
+            return "LineBox.original_widget" if setprop(w, "original_widget", new_leaf(b)) else None
         return None
     if isinstance(w, urwid.AttrMap):
         k = a % 3
@@ -468,41 +511,30 @@ def mutate_real(w, a, b, size):
             w.set_focus_map({None: ["fp", "fq"][b % 2]})
             return "AttrMap.set_focus_map"
         if "flow" in w.original_widget.sizing():
-            w.original_widget = new_leaf(b)
-            return "AttrMap.original_widget"
+            return "AttrMap.original_widget" if setprop(w, "original_widget", new_leaf(b)) else None
         return None
     if isinstance(w, urwid.Padding):
         k = a % 5
         if k == 0:
-            w.align = ["left", "center", "right"][b % 3]
-            return "Padding.align"
+            return "Padding.align" if setprop(w, "align", ["left", "center", "right"][b % 3]) else None
         if k == 1:
-            w.width = [("relative", 50), ("relative", 100), "pack", 4][b % 4]
-            return "Padding.width"
+            return "Padding.width" if setprop(w, "width", [("relative", 50), ("relative", 100), "pack", 4][b % 4]) else None
         if k == 2:
-            w.left = b % 3
-            return "Padding.left"
+            return "Padding.left" if setprop(w, "left", b % 3) else None
         if k == 3:
-            w.right = b % 3
-            return "Padding.right"
-        w.original_widget = new_leaf(b)
-        return "Padding.original_widget"
+            return "Padding.right" if setprop(w, "right", b % 3) else None
+        return "Padding.original_widget" if setprop(w, "original_widget", new_leaf(b)) else None
     if isinstance(w, urwid.BoxAdapter):
-        w.height = 1 + b % 5
-        return "BoxAdapter.height"
+        return "BoxAdapter.height" if setprop(w, "height", 1 + b % 5) else None
     if isinstance(w, urwid.WidgetPlaceholder):
-        w.original_widget = new_leaf(b)
-        return "WidgetPlaceholder.original_widget"
+        return "WidgetPlaceholder.original_widget" if setprop(w, "original_widget", new_leaf(b)) else None
     if isinstance(w, urwid.Filler):
         k = a % 3
         if k == 0:
-            w.valign = ["top", "middle", "bottom"][b % 3]
-            return "Filler.valign"
+            return "Filler.valign" if setprop(w, "valign", ["top", "middle", "bottom"][b % 3]) else None
         if k == 1:
-            w.top = b % 2
-            return "Filler.top"
-        w.original_widget = new_leaf(b)
-        return "Filler.original_widget"
+            return "Filler.top" if setprop(w, "top", b % 2) else None
+        return "Filler.original_widget" if setprop(w, "original_widget", new_leaf(b)) else None
     if isinstance(w, urwid.ListBox):
         n = len(w.body)
         k = a % 7
@@ -531,14 +563,11 @@ def mutate_real(w, a, b, size):
     if isinstance(w, urwid.Frame):
         k = a % 4
         if k == 0:
-            w.header = [None, new_leaf(b)][b % 2]
-            return "Frame.header"
+            return "Frame.header" if setprop(w, "header", [None, new_leaf(b)][b % 2]) else None
         if k == 1:
-            w.footer = [None, new_leaf(b)][b % 2]
-            return "Frame.footer"
+            return "Frame.footer" if setprop(w, "footer", [None, new_leaf(b)][b % 2]) else None
         if k == 2:
-            w.focus_position = ["body", "header", "footer"][b % 3]
-            return "Frame.focus_position"
+            return "Frame.focus_position" if setprop(w, "focus_position", ["body", "header", "footer"][b % 3]) else None
         w.keypress((size[0], 5), KEYS[b % len(KEYS)])
         return "Frame.keypress"
     if isinstance(w, urwid.Overlay):
@@ -548,6 +577,80 @@ def mutate_real(w, a, b, size):
         w.set_scrollpos(b % 4)
         return "Scrollable.set_scrollpos"
     return None
+
+
+# ---------- proposed patches, applied in-process to ATTRIBUTE a violation to a recorded root cause ----------
+# A violation is tagged [root cause: X] only if it disappears when the proposed patch X is applied (never edits /repo).
+@contextlib.contextmanager
+def shim(names):
+    import urwid
+    from urwid import CanvasCache, CompositeCanvas
+    from urwid.widget import widget as wm
+    saved = []
+
+    def patch(cls, attr, val):
+        saved.append((cls, attr, cls.__dict__[attr]))
+        setattr(cls, attr, val)
+    try:
+        if "edit-inherits-focus-blind-text-cache" in names:
+            text_fn = urwid.Text.render.original_fn
+
+            def edit_render(self, size, focus=False):
+                self._shift_view_to_cursor = bool(focus)
+                canv = text_fn(self, size, focus)
+                if focus:
+                    canv = CompositeCanvas(canv)
+                    canv.cursor = self.get_cursor_coords(size)
+                return canv
+            patch(urwid.Edit, "render", edit_render)
+            setattr(urwid.Edit, "render", wm.cache_widget_render(urwid.Edit))
+        if "store-checks-widget-not-canvas" in names or "pile-hidden-child" in names or "columns-hidden-child" in names:
+            orig_store = CanvasCache.__dict__["store"].__func__
+
+            def kids(canv):
+                for _x, _y, c, _pos in getattr(canv, "children", ()):
+                    if c.widget_info:
+                        yield c
+                    elif hasattr(c, "children"):
+                        yield from kids(c)
+
+            def store(cls, wcls, canvas):
+                if canvas.cacheable and getattr(canvas, "depends_on", None) is None:
+                    for c in kids(canvas):
+                        if not any(r() is c for r in cls._widgets.get(c.widget_info[0], {}).values()):
+                            return None
+                return orig_store(cls, wcls, canvas)
+            patch(CanvasCache, "store", classmethod(store))
+        if "pile-hidden-child" in names:
+            pile_fn = urwid.Pile.render.original_fn
+
+            def pile_render(self, size, focus=False):
+                canv = pile_fn(self, size, focus)
+                if any(h <= 0 for h in self.get_rows_sizes(size, focus)[1]):
+                    canv = CompositeCanvas(canv)
+                    canv.cacheable = False
+                return canv
+            patch(urwid.Pile, "render", pile_render)
+            setattr(urwid.Pile, "render", wm.cache_widget_render(urwid.Pile))
+        if "columns-hidden-child" in names:
+            cols_fn = urwid.Columns.render.original_fn
+
+            def cols_render(self, size, focus=False):
+                canv = cols_fn(self, size, focus)
+                if any(w <= 0 for w in self.get_column_sizes(size, focus)[0]):
+                    canv = CompositeCanvas(canv)
+                    canv.cacheable = False
+                return canv
+            patch(urwid.Columns, "render", cols_render)
+            setattr(urwid.Columns, "render", wm.cache_widget_render(urwid.Columns))
+        yield
+    finally:
+        for cls, attr, val in reversed(saved):
+            setattr(cls, attr, val)
+
+
+ROOT_CAUSES = [["edit-inherits-focus-blind-text-cache"], ["store-checks-widget-not-canvas"], ["pile-hidden-child"],
+               ["columns-hidden-child"]]
 
 
 def run_real(case):
@@ -571,9 +674,8 @@ def run_real(case):
                     r1 = top.rows(size, focus)
                 except Exception as e:      # noqa: BLE001
                     o["exc"] = type(e).__name__
-                    outs.append(o)
-                    continue
-                if op[3]:
+                    c1 = d1 = r1 = None
+                if op[3] and c1 is not None:
                     keep.append(c1)
                     snaps.append((c1, d1))
                     keep = keep[-3:]
@@ -597,7 +699,7 @@ def run_real(case):
                         keep.append(c2)
                     del c2
                 del saved
-                if d2 is not None:
+                if d2 is not None and d1 is not None:
                     o["same"] = d1 == d2
                     o["rows"] = [r1, r2, r3]
                     if d1 != d2:
@@ -718,7 +820,7 @@ class C06(core.Check):
         for j in range(ncont):
             i = nl + j
             for _attempt in range(20):
-                k = rng.choice(["attr", "pad", "pile", "pile", "cols"])
+                k = rng.choice(["attr", "pad", "pile", "pile", "cols", "switch"])
                 n = {"id": i, "k": k}
                 ncfg = rng.choice([1, 1, 2, 3])
                 pool = list(range(i))
@@ -727,7 +829,9 @@ class C06(core.Check):
                     if k == "pad":
                         n["l"], n["r"] = rng.choice([0, 1]), rng.choice([0, 1, 2])
                     nd = max(need[c[0][0]] for c in n["configs"]) + n.get("l", 0) + n.get("r", 0)
-                elif k == "pile":
+                elif k in ("pile", "switch"):
+                    if k == "switch":
+                        n["l"] = rng.choice([10, 14, 18])
                     n["configs"] = []
                     for _ in range(ncfg):
                         m = min(len(pool), rng.choice([1, 2, 2, 3]))
@@ -772,6 +876,294 @@ class C06(core.Check):
             else:
                 ops.append(["clear"])
         return {"kind": "bk", "nodes": nodes, "ops": ops}
+
+    @staticmethod
+    def gen_tree(rng, d):
+        def leaf():
+            k = rng.randrange(9)
+            return [["text", rng.randrange(7), rng.randrange(4)], ["edit", rng.randrange(7), rng.randrange(2)],
+                    ["checkbox", rng.randrange(2)], ["button", rng.randrange(7)], ["divider", rng.randrange(2), rng.randrange(2)],
+                    ["intedit", rng.randrange(1000)], ["progress", rng.randrange(101)], ["radio", rng.randrange(3)],
+                    ["text", 4, 0]][k]
+
+        def flow(d):
+            if d == 0 or rng.random() < 0.25:
+                return leaf()
+            k = rng.randrange(11)
+            if k == 0:
+                return ["pile", [flow(d - 1) for _ in range(rng.randint(0, 3))]]
+            if k == 1:
+                n = rng.randint(1, 3)
+                return ["columns", rng.randrange(2), [flow(d - 1) for _ in range(n)], [rng.choice([0, 0, 1, 2, 5, 6]) for _ in range(n)]]
+            if k == 2:
+                return ["gridflow", rng.randrange(6), rng.randrange(2), rng.randrange(2), [leaf() for _ in range(rng.randint(0, 4))]]
+            if k == 3:
+                return ["padding", rng.randrange(3), rng.randrange(3), flow(d - 1)]
+            if k == 4:
+                return ["attrmap", flow(d - 1)]
+            if k == 5:
+                return ["linebox", rng.randrange(3), flow(d - 1)]
+            if k == 6:
+                return ["boxadapter", rng.randrange(5), box(d - 1)]
+            if k == 7:
+                return ["wrap", flow(d - 1)]
+            if k == 8:
+                return ["placeholder", flow(d - 1)]
+            return ["pile", [flow(d - 1) for _ in range(rng.randint(1, 3))]]
+
+        def box(d):
+            k = rng.randrange(8)
+            if k <= 2 or d <= 0:
+                return ["listbox", rng.randrange(2), [flow(max(0, d - 1)) for _ in range(rng.randint(1, 4))]]
+            if k == 3:
+                return ["filler", rng.randrange(3), flow(d - 1)]
+            if k == 4:
+                return ["frame", box(d - 1), flow(0) if rng.random() < 0.6 else 0, flow(0) if rng.random() < 0.4 else 0]
+            if k == 5:
+                return ["scrollable", flow(d - 1)]
+            if k == 6:
+                return ["overlay", flow(0), box(d - 1)]
+            return ["boxattr", box(d - 1)]
+        return flow(d)
+
+    @classmethod
+    def gen_real(cls, rng, nops=None):
+        tree = cls.gen_tree(rng, rng.choice([1, 2, 2, 3]))
+        ops = [["render", rng.randrange(4), rng.randrange(2), 1]]
+        for _ in range(nops or rng.choice([6, 10, 16, 24])):
+            x = rng.random()
+            if x < 0.42:
+                ops.append(["render", rng.choice([0, 0, 1, 2, 3]), rng.randrange(2), int(rng.random() < 0.7)])
+            elif x < 0.9:
+                ops.append(["mut", rng.randrange(40), rng.randrange(8), rng.randrange(60), rng.randrange(4)])
+            elif x < 0.97:
+                ops.append(["gc", rng.randrange(4)])
+            else:
+                ops.append(["clear"])
+        ops.append(["render", ops[0][1], ops[0][2], 0])
+        return {"kind": "real", "mode": rng.choice(["swap", "swap", "clear"]), "tree": tree, "ops": ops}
+
+    def cases(self, rng, tier):
+        nbk = 2500 if tier == "quick" else 25000
+        for _ in range(nbk):
+            yield self.gen_bk(rng)
+        # directed: a container that is cached at one size only, over an uncacheable / shared child
+        for _ in range(nbk // 10):
+            yield self.gen_bk_directed(rng)
+        nreal = 1500 if tier == "quick" else 15000
+        for _ in range(nreal):
+            yield self.gen_real(rng)
+
+    @staticmethod
+    def gen_bk_directed(rng):
+        nc = rng.random() < 0.5
+        nodes = [{"id": 0, "k": "leaf", "ignf": int(rng.random() < 0.3), "cache": 1},
+                 {"id": 1, "k": "leaf", "ignf": 0, "cache": 0 if nc else 1},
+                 {"id": 2, "k": "switch", "l": 14, "configs": [[[0, 1], rng.randrange(2)], [[1, 0], 0]]},
+                 {"id": 3, "k": rng.choice(["attr", "pile", "pad"]), "l": 1, "r": 1, "configs": [[[2], 0]]},
+                 {"id": 4, "k": "pile", "configs": [[[3, 1], 0], [[3], 0]]}]
+        ops = []
+        for _ in range(rng.choice([5, 8, 12])):
+            x = rng.random()
+            if x < 0.55:
+                ops.append(["render", rng.choice([2, 3, 3, 4]), rng.choice([12, 13, 16, 18]), rng.randrange(2), rng.choice([-1, 0, 1, 2, 3])])
+            elif x < 0.8:
+                ops.append(["mut", rng.choice([0, 1, 1, 2, 4]), rng.randrange(20)])
+            elif x < 0.9:
+                ops.append(["rows", rng.choice([2, 3, 4]), rng.choice([12, 16]), rng.randrange(2)])
+            else:
+                ops.append(["drop", rng.randrange(4)])
+        return {"kind": "bk", "nodes": nodes, "ops": ops}
+
+    def search_cases(self, rng, tier):
+        while True:
+            yield self.gen_bk(rng, 6)
+            yield self.gen_real(rng, 8)
+
+    # ---------- oracle (from the property text; never looks at the model) ----------
+    def oracle(self, case, res):
+        msgs = self.judge(case, res)
+        if not msgs:
+            return msgs
+        tag = self.diagnose(case, self.judge)
+        msgs = [f"{m} [{tag}]" for m in msgs]
+        # the same root cause shows up in many histories: report each signature a few times, count the rest
+        out = []
+        for m in msgs:
+            sg = self.signature(case, m)
+            self.sig_seen[sg] = self.sig_seen.get(sg, 0) + 1
+            if self.sig_seen[sg] <= 3 or self.in_shrink:
+                out.append(m)
+        return out
+
+    sig_seen: dict = {}
+    in_shrink = False
+
+    def shrink(self, case, msg):
+        self.in_shrink = True
+        try:
+            return super().shrink(case, msg)
+        finally:
+            self.in_shrink = False
+
+    def judge(self, case, res):
+        msgs = []
+        if res.get("frozen"):
+            msgs.append("a canvas handed out by an earlier render was modified afterwards")
+        if case.get("kind") == "bk":
+            for k, (o, e) in enumerate(zip(res["outs"], expect_bk(case))):
+                if e is None or o["r"] == e:
+                    continue
+                if isinstance(o["r"], str):
+                    continue        # an exception: not a cache matter in these trees (never happens)
+                what = "rows()" if e[0] == "rows" else "render"
+                msgs.append(f"spy tree: {what} with cached canvases shows {o['r']}, the current versions give {e}")
+                break
+            return msgs
+        last = None
+        for k, o in enumerate(res["outs"]):
+            if o["op"] == "mut":
+                if o.get("what"):
+                    last = f"{o['what']} on {o['on']}"
+                continue
+            if o["op"] != "render":
+                continue
+            if "exc" in o and "exc_fresh" not in o:
+                msgs.append(f"render with cached canvases raises {o['exc']} but renders fine with the cache emptied (last change: {last})")
+                break
+            if o.get("same") is False:
+                msgs.append(f"render with cached canvases differs from the render with the cache emptied (last change: {last})")
+                break
+            r = o.get("rows")
+            # r = [rows() with cached canvases, rows() computed afresh, rows of the fresh canvas]; when the widget's own
+            # rows() disagrees with its own fresh canvas (r[1] != r[2]) the difference is not the cache's doing (C11)
+            if r and r[0] != r[1] and r[1] == r[2]:
+                msgs.append(f"rows() answered with cached canvases = {r[0]}, computed afresh = {r[1]} (last change: {last})")
+                break
+        return msgs
+
+    def diagnose(self, case, judge):
+        """Which recorded root cause explains the violation?  (the violation vanishes under that proposed patch)"""
+        combos = ROOT_CAUSES + [sorted({n for c in ROOT_CAUSES for n in c})]
+        for names in combos:
+            try:
+                with shim(names):
+                    res = run_bk(case) if case.get("kind") == "bk" else run_real(case)
+                if not judge(case, res):
+                    return "root cause: " + "+".join(names)
+            except Exception:       # noqa: BLE001
+                continue
+        return "root cause: unexplained"
+
+    def nontrivial(self, case, res):
+        if case.get("kind") == "bk":
+            return any(o["widgets"] for o in res["outs"])
+        return any(o.get("what") for o in res["outs"]) and any("same" in o for o in res["outs"])
+
+    def signature(self, case, msg):
+        return re.sub(r"\d+", "N", re.sub(r"shows .* give .*? \[", "shows X [", re.sub(r"\(last change: [^)]*\)", "", msg)))
+
+    def distribution(self, case, res, dist):
+        def inc(k, n=1):
+            dist[k] = dist.get(k, 0) + n
+        inc("kind:" + case.get("kind", "real"))
+        if case.get("kind") == "bk":
+            for op, o in zip(case["ops"], res["outs"]):
+                inc("bk.op:" + op[0])
+                inc("bk.cached_entries:%d" % min(len(o["widgets"]), 9))
+            return
+        inc("real.mode:" + case.get("mode", "swap"))
+        for o in res["outs"]:
+            if o["op"] == "mut":
+                inc("mut:" + str(o.get("what")) if not o.get("mexc") else "mut-raised:" + o["mexc"])
+            elif o["op"] == "render":
+                if "same" in o:
+                    inc("render.compared")
+                    r = o["rows"]
+                    if r[1] != r[2]:
+                        inc("observation:rows()!=render().rows() without cache (C11 matter)")
+                if "exc" in o and "exc_fresh" in o:
+                    inc("render-raised-both:" + o["exc"])
+                elif "exc_fresh" in o:
+                    inc("observation:fresh render raised, cached did not:" + o["exc_fresh"])
+            else:
+                inc("op:" + o["op"])
+
+    # ---------- shrinking ----------
+    def shrink_candidates(self, case):
+        ops = case["ops"]
+        base = {k: v for k, v in case.items() if k != "ops"}
+        for i in range(len(ops) - 1, -1, -1):
+            yield dict(base, ops=ops[:i] + ops[i + 1:])
+        if case.get("kind") == "bk":
+            nodes = case["nodes"]
+            used = {op[1] for op in ops if op[0] in ("render", "rows", "mut")}
+            kids = {x for n in nodes for c in n.get("configs", []) for x in c[0]}
+            for i in range(len(nodes) - 1, -1, -1):
+                if nodes[i]["id"] not in used and nodes[i]["id"] not in kids:
+                    yield dict(base, nodes=nodes[:i] + nodes[i + 1:], ops=ops)
+            for i, n in enumerate(nodes):
+                if len(n.get("configs", [])) > 1:
+                    for j in range(len(n["configs"])):
+                        n2 = dict(n, configs=n["configs"][:j] + n["configs"][j + 1:])
+                        yield dict(base, nodes=nodes[:i] + [n2] + nodes[i + 1:], ops=ops)
+            for i, op in enumerate(ops):
+                if op[0] == "render" and op[4] != -1 and False:
+                    yield dict(base, ops=ops[:i] + [op[:4] + [-1]] + ops[i + 1:])
+                if op[0] == "mut" and op[2] > 1:
+                    yield dict(base, ops=ops[:i] + [[op[0], op[1], 1]] + ops[i + 1:])
+            return
+        # real trees: replace the tree by a subtree, a subtree by a plain text, children lists by shorter ones
+        for t in self.tree_shrinks(case["tree"]):
+            yield dict(base, tree=t, ops=ops)
+        if case.get("mode") != "swap":
+            yield dict(base, mode="swap", ops=ops)
+        for i, op in enumerate(ops):
+            for j in range(1, len(op)):
+                if isinstance(op[j], int) and op[j] > 0:
+                    for v in {0, op[j] // 2, op[j] - 1}:
+                        yield dict(base, ops=ops[:i] + [op[:j] + [v] + op[j + 1:]] + ops[i + 1:])
+
+    @classmethod
+    def tree_shrinks(cls, t):
+        FLOWLEAF = ["text", 0, 0]
+        if not isinstance(t, list) or not t:
+            return
+        kind = t[0]
+        subs = [(i, x) for i, x in enumerate(t) if isinstance(x, list) and x and isinstance(x[0], str)]
+        lists = [(i, x) for i, x in enumerate(t) if isinstance(x, list) and (not x or isinstance(x[0], list))]
+        flow_kinds = {"text", "edit", "intedit", "checkbox", "radio", "button", "divider", "progress", "pile", "columns", "gridflow",
+                      "padding", "attrmap", "linebox", "boxadapter", "wrap", "placeholder"}
+        if kind in flow_kinds:
+            # hoist a flow child
+            for _, x in subs:
+                if x[0] in flow_kinds:
+                    yield x
+            for _, l in lists:
+                for x in l:
+                    if x and x[0] in flow_kinds:
+                        yield x
+            if kind not in ("text",) or t != FLOWLEAF:
+                if kind != "text":
+                    yield FLOWLEAF
+        else:
+            for _, x in subs:
+                if x[0] not in flow_kinds:
+                    yield x
+        for i, l in lists:
+            for j in range(len(l)):
+                yield t[:i] + [l[:j] + l[j + 1:]] + t[i + 1:]
+            for j, x in enumerate(l):
+                for y in cls.tree_shrinks(x):
+                    if (y[0] in flow_kinds) == (x[0] in flow_kinds):
+                        yield t[:i] + [l[:j] + [y] + l[j + 1:]] + t[i + 1:]
+        for i, x in subs:
+            for y in cls.tree_shrinks(x):
+                if (y[0] in flow_kinds) == (x[0] in flow_kinds):
+                    yield t[:i] + [y] + t[i + 1:]
+        for i, x in enumerate(t):
+            if i and isinstance(x, int) and x > 0:
+                yield t[:i] + [0] + t[i + 1:]
 
 
 CHECK = C06
